@@ -613,6 +613,9 @@ class Engine:
             return z3.Const("arr:" + v.base, V)
         if isinstance(v, Named):
             return z3.Const("global:" + v.name, V)
+        if isinstance(v, (list, tuple)):
+            f = z3.Function(f"pyseq{len(v)}", *([V] * (len(v) + 1)))
+            return f(*[self.to_v(x) for x in v]) if v else z3.Const("pyseq:empty", V)
         raise Unsupported(f"cannot lift {type(v).__name__} to V")
 
     def to_int(self, v):
@@ -773,6 +776,10 @@ class Engine:
             return self.to_int(a) == self.to_int(b)
         if (a is PNONE and num_b) or (b is PNONE and num_a):
             return z3.BoolVal(False)
+        if isinstance(a, Opq) and num_b and not _is_boolish(b):
+            return v2int(a.t) == self.to_int(b)
+        if isinstance(b, Opq) and num_a and not _is_boolish(a):
+            return self.to_int(a) == v2int(b.t)
         if isinstance(a, Ref) and isinstance(b, Ref):
             return z3.BoolVal(a.base == b.base)
         if isinstance(a, Ref) and b is PNONE or isinstance(b, Ref) and a is PNONE:
@@ -828,6 +835,9 @@ class Engine:
             return z3.Or(x, y) if isinstance(op, ast.BitOr) else z3.And(x, y)
         if isinstance(op, ast.Add) and isinstance(a, (list, tuple)) and isinstance(b, (list, tuple)):
             return type(a)(list(a) + list(b))
+        if isinstance(op, ast.Add) and ((isinstance(a, (list, tuple)) and isinstance(b, Opq)) or
+                                        (isinstance(b, (list, tuple)) and isinstance(a, Opq))):
+            return Opq(z3.Function("fn:concat", V, V, V)(self.to_v(a), self.to_v(b)))
         x, y = self.to_int(a), self.to_int(b)
         if isinstance(op, ast.Add):
             return x + y
@@ -1147,7 +1157,9 @@ class Engine:
                 self.assumptions.add(f"comprehension at line {e.lineno} of {self.cur.key}: element expressions have no "
                                      "side effects; the result is an opaque value")
                 elem = Opq(self.fresh("elem", "V"))
-                res = Opq(self.fresh("comp", "V"))
+                self.comp_n = getattr(self, "comp_n", {})
+                cid = self.comp_ordinal(e)
+                res = Opq(z3.Const(f"comp:{self.cur.qualname.split('.')[-1]}:{cid}", V))
 
                 def bound(s2):
                     exprs = list(g.ifs) + ([e.key, e.value] if kind == "dict" else [e.elt])
@@ -1157,6 +1169,16 @@ class Engine:
                 return k(res, s0)
             raise Unsupported(f"comprehension over {type(it).__name__}")
         return self.ev(g.iter, st, fr, with_iter)
+
+    def comp_ordinal(self, e):
+        """1-based ordinal of a comprehension among the comprehensions of the current function (source order)."""
+        fn, _ = find_function(self.cur.file, self.cur.qualname)
+        comps = [n for n in ast.walk(fn) if isinstance(n, (ast.ListComp, ast.DictComp, ast.SetComp, ast.GeneratorExp))]
+        comps.sort(key=lambda n: (n.lineno, n.col_offset))
+        for i, n in enumerate(comps):
+            if (n.lineno, n.col_offset) == (e.lineno, e.col_offset):
+                return i + 1
+        return 0
 
     def ev_Lambda(self, e, st, fr, k):
         return k(Closure(e, st.env), st)
@@ -1245,6 +1267,9 @@ class Engine:
         if isinstance(tgt, (ast.Tuple, ast.List)):
             if isinstance(v, Row) and False:
                 pass
+            if isinstance(v, Opq):
+                gi = z3.Function("getitem", V, V, V)
+                v = tuple(Opq(gi(v.t, int2v(z3.IntVal(i)))) for i in range(len(tgt.elts)))
             if not isinstance(v, (tuple, list)) or len(v) != len(tgt.elts):
                 raise Unsupported("unpacking of a non-tuple value")
 
@@ -1255,6 +1280,10 @@ class Engine:
             return go(0, st)
         if isinstance(tgt, ast.Attribute):
             return self.ev(tgt.value, st, fr, lambda obj, s: self.setattr(obj, tgt.attr, v, s, fr, k, node))
+        if isinstance(tgt, ast.Subscript) and isinstance(tgt.value, ast.Name) and self.cur is not None \
+                and tgt.value.id in self.cur.store_hooks:
+            h = self.cur.store_hooks[tgt.value.id]
+            return self.ev(tgt.slice, st, fr, lambda key, s1: k(h(self, s1, key, v, node)))
         if isinstance(tgt, ast.Subscript):
             def cont(base, s):
                 if isinstance(tgt.slice, ast.Slice):
@@ -1467,7 +1496,14 @@ class Engine:
     def ex_Global(self, s, st, fr, k):
         return k(st)
 
+    ex_Nonlocal = ex_Global
+
     def ex_Delete(self, s, st, fr, k):
+        hooks = self.cur.store_hooks if self.cur else {}
+        for t in s.targets:
+            if isinstance(t, ast.Subscript) and isinstance(t.value, ast.Name) and ("del:" + t.value.id) in hooks:
+                h = hooks["del:" + t.value.id]
+                return self.ev(t.slice, st, fr, lambda key, s1: k(h(self, s1, key, None, s)))
         return k(st)
 
     def ex_Import(self, s, st, fr, k):
